@@ -43,7 +43,7 @@ type Timer struct {
 func (t *Timer) active() bool { return !t.stopped && !t.fired }
 
 //go:norace
-func chanID(c chan Time) uintptr { return *(*uintptr)(unsafe.Pointer(&c)) }
+func chanID(c chan Time) unsafe.Pointer { return *(*unsafe.Pointer)(unsafe.Pointer(&c)) }
 
 // NewTimer: under the scheduler the firing is a daemon thread that may run at
 // any scheduling point while the timer is active.
